@@ -71,7 +71,7 @@ def run_case(case):
         w = view.random_point(rng)
         ph = rb(w)
         f, atoms = view.atoms(w)
-        if not C.finite([a[1] for a in atoms], ph["tc"]):
+        if not C.finite([a[1] for a in atoms], ph["tc"]) or not C.phys_ok(ph):
             res["counters"]["discarded_points"] = res["counters"].get("discarded_points", 0) + 1
             continue
         ref = model.RefModel(spec, ph)
